@@ -305,7 +305,7 @@ pub fn vx_params() -> VxParams { unimplemented!() }
 pub trait VxFuture { type Output; }
 #[verifier::external_body]
 pub fn vx_await<F: VxFuture>(f: F, held: &mut Held) -> F::Output
-    requires may_wait_long(*old(held)),
+    requires client_ok(*old(held)),
     ensures *final(held) == *old(held),
 { unimplemented!() }
 pub mod oneshot {
@@ -343,7 +343,8 @@ pub mod sync { pub mod mpsc {
         #[verifier::external_body]
         fn clone(&self) -> Self { unimplemented!() }
     }
-    /// a BOUNDED channel: `send` waits for capacity, `recv` for a message of another task
+    /// a BOUNDED channel: `send` waits for capacity, `recv` for a message of another task. `needs` (rule c28-held, computed by unit.py from the
+    /// spawn bodies of the receiving fn) = the locks the producing tasks take
     #[verifier::external_body]
     pub fn channel<T>(buffer: usize) -> (Sender<T>, Receiver<T>) { unimplemented!() }
     impl<T> Sender<T> {
@@ -355,8 +356,8 @@ pub mod sync { pub mod mpsc {
     }
     impl<T> Receiver<T> {
         #[verifier::external_body]
-        pub fn recv(&mut self, held: &mut Held) -> Option<T>
-            requires may_wait_long(*old(held)),
+        pub fn recv(&mut self, held: &mut Held, needs: Ghost<Set<L>>) -> Option<T>
+            requires may_wait_long(*old(held)), join_ok(*old(held), needs@),
             ensures *final(held) == *old(held),
         { unimplemented!() }
     }
